@@ -126,5 +126,10 @@ k("K83", "C03", "primitive/string_list.go", "\tlength := LengthOfShort\n\tfor _,
 k("K84", "C03", "message/result_metadata.go", "\t\tlength += primitive.LengthOfShort * len(metadata.PkIndices)", "\t\tlength += primitive.LengthOfInt * len(metadata.PkIndices)",
   "length-vs-encode:", "pk indices sized 4 bytes each")
 
+k("K85", "C03", "compression/lz4/lz4.go", "\t\tif _, err = io.CopyN(ioutil.Discard, source, 1); err != nil {\n\t\t\treturn fmt.Errorf(\"cannot read empty message: %w\", err)\n\t\t}\n\t\treturn nil", "\t\t_ = ioutil.Discard\n\t\treturn nil",
+  "decompress-consumes:compression/lz4.DecompressWithLength", "empty compressed body not drained (seeded C03-A)")
+k("K86", "C03", "frame/decode.go", "io.LimitReader(source, int64(header.BodyLength))", "source",
+  "compressed-body-bounded", "decompressor reads the unbounded stream")
+
 json.dump(C, open(os.path.join(os.path.dirname(os.path.abspath(__file__)), "controls.json"), "w"), indent=1)
 print(len(C), "controls")
